@@ -3012,6 +3012,45 @@ func ruleSearchersReadOnly(c *Ctx) {
 	if n == 0 {
 		c.und(R, "searchers", "-", "no searcher found")
 	}
+	// F107: the package table is not looked up through the global variable of that name
+	for _, name := range []string{"loLoaderPreload", "loLoaderLua", "loFindFile", "(*LState).PreloadModule"} {
+		fn := p.Fn("lua", name)
+		if fn == nil {
+			continue
+		}
+		var bad ssa.Instruction
+		allInstrs(fn, func(in ssa.Instruction) {
+			cl, ok := in.(*ssa.Call)
+			if !ok {
+				return
+			}
+			sc := cl.Call.StaticCallee()
+			if sc == nil || recvNamed(sc) != "LState" || (sc.Name() != "GetField" && sc.Name() != "GetGlobal") {
+				return
+			}
+			for _, a := range cl.Call.Args {
+				if s, ok := constStr(a); ok && s == "package" && bad == nil {
+					// the registry's _LOADED["package"] is fine: the table argument then comes from the registry
+					if sc.Name() == "GetField" {
+						if inner, ok := cl.Call.Args[1].(*ssa.Call); ok {
+							if isc := inner.Call.StaticCallee(); isc != nil && isc.Name() == "GetField" {
+								if k, ok := constStr(inner.Call.Args[2]); ok && k == "_LOADED" {
+									continue
+								}
+							}
+						}
+					}
+					bad = in
+				}
+			}
+		})
+		pos := p.pos(fn.Pos())
+		if bad != nil {
+			pos = p.ipos(bad)
+		}
+		c.Sites++
+		c.check(bad == nil, R, strings.TrimPrefix(name, "(*LState).")+":package-table-not-through-the-global", pos, "the package table is not read from a global variable", name+" reads the package table from the global variable \"package\": a script that uses that name for a variable of its own (or sets it to nil) breaks every later require")
+	}
 }
 
 // ruleCaptureResolvesLocalFirst: C03e. A closure captures "the very variable that was in scope where it
